@@ -1798,8 +1798,9 @@ where
                 }
             }
 
+            // from_str_radix would accept a leading sign.
             match u32::from_str_radix(&s, 16) {
-                Ok(u) => {
+                Ok(u) if s.bytes().all(|b| b.is_ascii_hexdigit()) => {
                     if u > 0x10_FFFF {
                         self.input = orig_input;
                         None
@@ -1825,7 +1826,7 @@ where
                 }
             }
             match u16::from_str_radix(&s, 16) {
-                Ok(u) => {
+                Ok(u) if s.bytes().all(|b| b.is_ascii_hexdigit()) => {
                     if (0xD800..=0xDBFF).contains(&u) {
                         // Found a high surrogate. Try to parse a low surrogate next
                         // to see if we can rebuild the original `char`
@@ -1846,6 +1847,9 @@ where
                                 s.push(c);
                             }
 
+                            if !s.bytes().all(|b| b.is_ascii_hexdigit()) {
+                                return None;
+                            }
                             let uu = u16::from_str_radix(&s, 16).ok()?;
                             let ch = char::decode_utf16([u, uu]).next()?.ok()?;
                             Some(u32::from(ch))
